@@ -141,3 +141,20 @@ Lemma store_one_entry c w r :
   w_outbox (do_store c w r) = w_outbox w ++ [route (w_noid w) (stamp c w r)] /\
   lookup_run (do_store c w r) (r_run r) = (if existsb (fun x => N.eqb (r_run x) (r_run r)) (w_recs w) then lookup_run (do_store c w r) (r_run r) else lookup_run (do_store c w r) (r_run r)).
 Proof. repeat split. destruct (existsb _ _); reflexivity. Qed.
+
+(* ---------- C09: at most one unfinished run per foreign ID, in every reachable world ---------- *)
+Lemma older_finished_in (recs : list record) : older_finished recs ->
+  forall l1 a l2, recs = l1 ++ a :: l2 -> forall b, In b l2 -> r_fid b = r_fid a -> rs_finished (r_state a) = true.
+Proof.
+  induction recs as [|x recs IH]; intros Ho l1 a l2 E b Hb Hf; [destruct l1; discriminate|].
+  destruct Ho as [Hx Hrest]. destruct l1 as [|y l1]; cbn in E; inversion E; subst.
+  - apply Hx. apply existsb_exists. exists b. split; [exact Hb|now apply N.eqb_eq].
+  - eapply IH; eauto.
+Qed.
+
+Theorem p_one_unfinished (c : econfig) (ops : list eop) : hist_ok ops ->
+  forall l1 a l2 b, w_recs (fst (run_ops c ops)) = l1 ++ a :: l2 -> In b l2 -> r_fid b = r_fid a ->
+  rs_finished (r_state a) = true.
+Proof.
+  intros H l1 a l2 b E Hb Hf. eapply older_finished_in; eauto. apply (wi_one c _ (final_WI c ops H)).
+Qed.
